@@ -108,6 +108,12 @@ _consts.update({
 _finish = dict(_common)
 _finish['self.config.exitcodes'] = ('cfg.exitcodes', 'list')
 
+_stop_all = dict(_common)
+_stop_all['state'] = ('p.state', 'lean:PS')              # state = proc.get_state()
+_stop_all['SIGNALLABLE_STATES'] = ('signallableStates', 'list')
+_stop_all['RUNNING_STATES'] = ('runningStates', 'list')
+_stop_all['STOPPED_STATES'] = ('stoppedStates', 'list')
+
 PARAMS = '(p : Proc) (cfg : Cfg) (e : Env)'
 
 
@@ -128,4 +134,6 @@ SITES = [
     S('Subprocess.signal', 'signal'),
     S('Subprocess.finish', 'finish', _finish),
     S('Subprocess.transition', 'transition'),
+    # the group-wide stop the daemon issues on every pass of a shutdown/restart: which member states it acts on
+    S('ProcessGroupBase.stop_all', 'stop_all', _stop_all),
 ]
